@@ -47,6 +47,7 @@ def gen_cases(ctx):
     cases += [conv_world(g, r, g.small()) for _ in range(n_small)]
     cases += [conv_world(g, r, g.long_chain()) for _ in range(n_long)]
     cases += [conv_world(g, r, g.straddle()) for _ in range(n_str)]
+    cases += [conv_world(g, r, g.partial()) for _ in range(max(2, n_str // 2))]
     return cases
 
 
@@ -108,7 +109,7 @@ def run(ctx):
     known_hits = 0
     stats = {"worlds": 0, "sessions": 0, "sessions_with_missing": 0, "sessions_delivering_new": 0, "quiescent_sessions": 0,
              "f11_sessions": 0, "conv_loops": 0, "conv_rounds_max": 0, "new_commands_total": 0, "redundant_commands_total": 0,
-             "sample_full": 0, "sessions_responder_over_100_segments": 0, "kinds": {}}
+             "sample_full": 0, "sessions_responder_over_100_segments": 0, "have_inside_segment": 0, "kinds": {}}
     wf_bad = []
     for ci, case in enumerate(cases):
         ev, err = S.run_world(binp, case)
@@ -139,6 +140,8 @@ def run(ctx):
             stats["redundant_commands_total"] += len(stream) - len(new)
             stats["sample_full"] += 1 if len(sess["sample"]) >= SAMPLE_MAX else 0
             stats["sessions_responder_over_100_segments"] += 1 if len(db["segs"]) > 100 else 0
+            tips_b = {s_["cmds"][-1]["id"] for s_ in db["segs"]}
+            stats["have_inside_segment"] += 1 if any(x[0] in com_b and x[0] not in tips_b for x in sess["sample"]) else 0
             w = S.dump_wf(db)
             if w:
                 wf_bad.append((ci, si, w[:2]))
